@@ -4,6 +4,7 @@
 Decides the policy tables and the dispatch/shape of the functions through which
 the documented rules are applied; no rendered string is computed."""
 import ast
+from .. import symex
 from ..core import (AnalysisError, short, unparse, iter_own, call_name, call_recv, kwarg,
                     is_self_attr, atomic_facts, parents, enclosing_stmt, const_value)
 from .. import tables
@@ -98,7 +99,7 @@ def indented_block_shape(fb):
     NL* + indent + contents.replace(NL, NL + indent) + NL*  (every line of the contents,
     empty ones included, starts with the indent; with indent='' the contents are unchanged);
     (False, reason) for a recognised deviation; (None, reason) when the shape is not understood."""
-    from .. import symex
+    pass
     params = [a.arg for a in fb.args.args]
     if len(params) < 3:
         return None, 'signature changed'
@@ -194,7 +195,7 @@ def run(ctx):
     if pf is None:
         raise AnalysisError('anchor vanished: _parse_strict_latex_spaces_dict')
     p = pf.args.args[0].arg
-    from .. import symex
+    pass
     ok_false = ok_true = ok_none = False
     for cs in symex.return_cases(pf):
         facts = symex.facts_of(cs.conds)
@@ -249,14 +250,8 @@ def run(ctx):
     ntt = meths.get('node_to_text')
     if ntt is None:
         raise AnalysisError('anchor vanished: node_to_text')
-    disp = {}
-    for i in [x for x in iter_own(ntt) if isinstance(x, ast.If)]:
-        t_ = i.test
-        if isinstance(t_, ast.Call) and call_name(t_) == 'isNodeType' and t_.args:
-            cls = unparse(t_.args[0]).rsplit('.', 1)[-1]
-            for s in i.body:
-                if isinstance(s, ast.Return) and isinstance(s.value, ast.Call) and is_self_attr(s.value.func):
-                    disp.setdefault(cls, s.value.func.attr)
+    from .. import shapes
+    disp = shapes.node_dispatch(ntt)
     want = {'LatexCharsNode': 'chars_node_to_text', 'LatexGroupNode': 'group_node_to_text',
             'LatexCommentNode': 'comment_node_to_text', 'LatexMacroNode': 'macro_node_to_text',
             'LatexEnvironmentNode': 'environment_node_to_text', 'LatexSpecialsNode': 'specials_node_to_text',
@@ -288,7 +283,7 @@ def run(ctx):
     pe = m.methods('_PushEquationContext').get('__init__')
     if pe is None:
         raise AnalysisError('anchor vanished: _PushEquationContext.__init__')
-    from .. import symex
+    pass
     lp = pe.args.args[1].arg
     pol_src = "%s.strict_latex_spaces['in-equations']" % lp
     why = None
@@ -349,7 +344,7 @@ def run(ctx):
                    "the equation context (%s): whitespace just inside the delimiters leaks into the "
                    "text / the equation policy is not applied" % (mode, [short(d, 70) for d in defs]),
                    construct='math content (%s)' % mode)
-    from .. import symex
+    pass
     disp_txt = "%s.isNodeType(latexwalker.LatexEnvironmentNode) or %s.displaytype == 'display'" % (np_, np_)
     why = None
     n_disp = n_inl = 0
@@ -424,11 +419,12 @@ def run(ctx):
         raise AnalysisError('anchor vanished: nodelist_to_text')
     loops = [l for l in iter_own(nl) if isinstance(l, ast.For)]
     ok = len(loops) == 1 and unparse(loops[0].iter) == nl.args.args[1].arg
+    adds = []
     if ok:
         l = loops[0]
         lv = unparse(l.target)
         adds = [s for s in l.body if isinstance(s, ast.AugAssign) and 'self.node_to_text(%s' % lv in unparse(s.value)]
-        from .. import symex
+        pass
         ends = [c for c in symex.Walker(want_exits=True).run_block(l.body) if c.kind == 'end']
         stale = [c for c in ends if not (isinstance(c.env.get('prev_node'), ast.Name)
                                          and c.env['prev_node'].id == lv)]
@@ -444,6 +440,24 @@ def run(ctx):
                'every node rendered once, in order, appended to the result',
                'nodelist_to_text does not append the rendering of every node in order',
                construct='nodelist_to_text: loop')
+    # the result is the concatenation itself: nothing rewrites the joined text afterwards (a global
+    # rewrite makes the text of a block depend on its neighbours)
+    if loops and adds:
+        acc = unparse(adds[0].target)
+        for r_ in [x for x in iter_own(nl) if isinstance(x, ast.Return) and x.value is not None]:
+            v_ = r_.value
+            plain = (isinstance(v_, ast.Constant) and v_.value == '') or unparse(v_) == acc
+            if not plain:
+                try:
+                    rc_ = [c for c in symex.Walker(want_returns=True).run(nl) if c.node is r_]
+                except symex.TooManyPaths:
+                    rc_ = []
+                plain = bool(rc_) and all(isinstance(c.sub, ast.Name) and c.sub.id.split('@')[0] == acc for c in rc_)
+            ctx.decide('R03h', plain, m, r_, 'returns the concatenation %s unchanged' % acc,
+                       'nodelist_to_text returns %s, not the concatenation %s itself: the joined text is rewritten '
+                       'as a whole, so the text of a block depends on what precedes and follows it and converting '
+                       'two blocks separately no longer equals converting them together' % (short(v_, 80), acc),
+                       construct='nodelist_to_text: result')
     ps = [s for s in ast.walk(nl) if isinstance(s, ast.AugAssign) and 'macro_post_space' in unparse(s.value)]
     ok = len(ps) == 1
     if ok:
@@ -548,6 +562,14 @@ def run(ctx):
     _shared_preset_writes(ctx, m)
     ctx.assume('no rendered string is computed: whitespace ownership between constructs and the '
                'compositional equality stated by the property are run-time statements, not decided')
+    # ---- R03m (C08 R08e): accent macros that share their name with an escaped character
+    ctx.rule('R03m', 'names defined twice in one category of the default tables resolve to the later entry, '
+                     'which the tables rely on (\\~ as accent): the per-category dictionaries keep the last '
+                     'definition (C08 R08e)', 1)
+    from . import c08 as _c08
+    from .. import core as _core
+    _c08.run(_core.Proxy(ctx, 'R03m', ('R08e',)))
+
     return 'other', (
         'Decides the policy tables against the documented semantics and the shape of the functions '
         'through which the documented rules are applied (dispatch per node kind, scoping of the '
